@@ -12,7 +12,7 @@ RULE = ("events: write10/12/16 and writesame10/16 (incl. unmap, anchor, ndob) ov
         "transfer lengths {0,1,2} x payloads {A,B} plus one all-flags variant per command and one write per payload container kind (bytes, writable / read-only memoryview window at a non-zero offset of a larger buffer), WRITE SAME with block counts 0xFFFF / 0x10000 / 0x10003 / 0xFFFFFFFF, synchronizecache10/16; BFS to depth 2 (quick) / 3 "
         "(thorough) de-duplicating on disk content, per block size in {512, 4096}; each history is replayed from scratch through the facade on a "
         "fresh SG_IO device and a fresh iSCSI device. In every state every read form (read10/12/16, lengths 1..2, one all-flags variant) over every "
-        "touched LBA and its neighbours, READ CAPACITY(10/16) and INQUIRY are compared with the model and across transports. two threads sharing one facade (a refused WRITE(10) and a READ(10)): all schedules with at most 1 preemption at every source line of the library and at most 2 at the lines of the device and facade modules, each thread sees its own command's outcome. states = distinct "
+        "touched LBA and its neighbours, READ CAPACITY(10/16) and INQUIRY are compared with the model and across transports. two threads sharing one facade (a refused WRITE(10) and a READ(10)): all schedules with at most 1 preemption at every source line of the library and at most 2 at the lines of the device and facade modules, each thread sees its own command's outcome. write / re-point the device path (a link) to another disk / write / read / INQUIRY through init_device and SCSIDevice. states = distinct "
         "disk contents, transitions = write-type events applied.")
 ASSUMPTIONS = [
     "the target (vf/sim/target.py) decodes CDBs with the oracle's own tables and stores blocks from the data-out buffer it is handed; the reference model is a dict updated from the *arguments* of the facade calls",
@@ -75,7 +75,7 @@ def partitions(tier):
         for i in range(len(evs)):
             parts.append([bs, i])
         parts.append([bs, -1])
-    parts += [["shared", "sgio"], ["shared", "iscsi"]]
+    parts += [["shared", "sgio"], ["shared", "iscsi"], ["relink"]]
     return parts
 
 
@@ -333,7 +333,55 @@ def run_shared(tr, choices, acc=None, tier="quick"):
             rigs.pop().close()
 
 
+def run_relink(kind, cmdw, cmdr):
+    """the device path is a by-path style link; after some traffic the link is re-pointed to another disk (the old node stays and is
+    another disk now): later writes must land on, and reads come from, the disk the path designates now"""
+    from vf.sim import nodes
+    from vf.sim.target import Target
+    from pyscsi.pyscsi.scsi import SCSI
+    from pyscsi.pyscsi.scsi_device import SCSIDevice
+    from pyscsi.utils import init_device
+    install.ensure()
+    out = []
+    disks = {}
+
+    def mk(g):
+        t = Target(device_type=0, blocksize=512, nblocks=1 << 24, vendor=b"VERIF   ", product=("DISK-%d" % g).encode().ljust(16), revision=b"0001")
+        disks[g] = t
+        return t
+    node = nodes.Node(mk, symlink="repoint" if kind == "repoint" else True)
+    dev = None
+    try:
+        dev = init_device(node.path, True) if kind != "direct" else SCSIDevice(node.path, True)
+        s = SCSI(dev, 512)
+        a, b = bytearray(b"\xa1" * 512), bytearray(b"\xb2" * 512)
+        getattr(s, cmdw)(5, 1, a)
+        node.plug()
+        getattr(s, cmdw)(6, 1, b)
+        got = bytes(getattr(s, cmdr)(6, 1).datain)
+        where = "%s/%s through a %s path after the path was moved to another disk" % (cmdw, cmdr, "re-pointed link" if kind == "repoint" else "replaced node behind a link")
+        if got != bytes(b):
+            out.append(("sgio/relink/readback", "%s: read back %s..., written %s..." % (where, got[:4].hex(), bytes(b)[:4].hex())))
+        if disks[2].block_at(6) != bytes(b) or disks[1].block_at(6) == bytes(b):
+            out.append(("sgio/relink/wrong_disk", "%s: block 6 of the new disk holds %s..., of the old disk %s..." % (where, disks[2].block_at(6)[:4].hex(), disks[1].block_at(6)[:4].hex())))
+        if disks[1].block_at(5) != bytes(a):
+            out.append(("sgio/relink/first_write_lost", "%s: the write before the move is not on the first disk" % where))
+        ident = bytes(s.inquiry().result.get("product_identification", b""))
+        if ident != b"DISK-2".ljust(16):
+            out.append(("sgio/relink/identity", "%s: INQUIRY reports %r, the path designates DISK-2" % (where, ident)))
+    finally:
+        if dev is not None:
+            try:
+                dev.close()
+            except Exception:   # noqa: BLE001
+                pass
+        node.destroy()
+    return out
+
+
 def run_case(case):
+    if case[0] == "relink":
+        return run_relink(*case[1:])
     if case[0] == "shared":
         return run_shared(case[1], case[2], None, case[3] if len(case) > 3 else "line")
     bs, hist = case
@@ -350,6 +398,22 @@ def run_partition(part, tier, seed):
     acc = Acc(seed)
     if part[0] == "shared":
         run_shared(part[1], None, acc)
+        return acc
+    if part[0] == "relink":
+        for kind in ("repoint", "replace", "direct"):
+            for cmdw, cmdr in (("write10", "read10"), ("write12", "read12"), ("write16", "read16"), ("write10", "read16")):
+                case = ["relink", kind, cmdw, cmdr]
+                acc.case(case, nontrivial=True, key=repr(case))
+                try:
+                    v = run_case(case)
+                except Exception:
+                    import traceback
+                    v = [("harness_error", traceback.format_exc()[-600:])]
+                for k, w in v:
+                    acc.violation(k, w, case)
+                acc.outcome((repr(case), tuple(k for k, _ in v)))
+                acc.transitions += 3
+                acc.traces += 1
         return acc
     bs, first = part
     evs = events()
